@@ -363,8 +363,11 @@ func TestC13Log(t *testing.T) {
 			for _, b := range blocks {
 				other.PutUint32(commit.Put, b<<14, b)
 			}
+			sparse := commit.NewBuffer(8)
+			sparse.Reset("sparse")
+			sparse.PutUint16(commit.Put, blocks[0]<<14+1, 7) // an operation in the lowest block only (see checkCommitEquals)
 			b := blocks[rapid.IntRange(0, len(blocks)-1).Draw(t, "block")]
-			cm := commit.Commit{ID: uint64(1000 + i), Chunk: commit.Chunk(b), Updates: []*commit.Buffer{buf, other}}
+			cm := commit.Commit{ID: uint64(1000 + i), Chunk: commit.Chunk(b), Updates: []*commit.Buffer{buf, sparse, other}}
 			if err := log.Append(cm); err != nil {
 				t.Fatalf("Append: %v", err)
 			}
